@@ -24,12 +24,12 @@ def evaluate(case, ctr, rng):
             ctr["block_visits_checked"] += 1
             ctx = fn.transaction_context(b)
             if s not in ctx.group_sizes:
-                viols.append({"kind": "size-missing", "key": b.entry_instr.line,
+                viols.append({"kind": "size-missing", "key": b.entry_instr.line, "ckey": "size",
                               "what": "accepting execution with GroupSize %d (index %d) visits block at line %d, group_sizes=%s" % (
                                   s, j, b.entry_instr.line, sorted(ctx.group_sizes)),
                               "exec": frag.slim_exec(e), "ended_in_call": e.ended_in_call})
             if j not in ctx.group_indices:
-                viols.append({"kind": "index-missing", "key": b.entry_instr.line,
+                viols.append({"kind": "index-missing", "key": b.entry_instr.line, "ckey": "index",
                               "what": "accepting execution with GroupIndex %d (size %d) visits block at line %d, group_indices=%s" % (
                                   j, s, b.entry_instr.line, sorted(ctx.group_indices)),
                               "exec": frag.slim_exec(e), "ended_in_call": e.ended_in_call})
